@@ -11,6 +11,13 @@ import (
 
 func (ex *Exec) loopCtx(st *State, fr *Frame, l *Loop) *SpecCtx {
 	c := ex.ctxAt(st, fr, l.header, 0)
+	for _, in := range l.header.Instrs {
+		if nx, ok := in.(*ssa.Next); ok {
+			if rg, ok := nx.Iter.(*ssa.Range); ok {
+				c.iterKey = "iter$" + rg.Name() + "$" + shortName(rg.Parent().String())
+			}
+		}
+	}
 	// expose range-loop counters: _i = number of completed iterations of this loop
 	for _, ll := range ex.loops(fr.fn).loops {
 		for _, in := range ll.header.Instrs {
